@@ -23,7 +23,7 @@ for p in props:
 m = {"version": 1, "setup_cmd": "./setup.sh",
      "hooks": {"guard": "verif", "enable": "go build -tags verif (harness module with replace => /repo)",
                "baseline_off_cmd": "cd /repo && GOFLAGS=-mod=mod GOPROXY=off GOTOOLCHAIN=local go test -vet=off -count=1 ./...",
-               "source_commits": ["de39150"], "add_only": True},
+               "source_commits": ["de39150", "fae4b01"], "add_only": True},
      "engines": [{"name": "coq-proof+correspondence", "path": "/verif/check",
                   "serves_properties": [c["property_id"] for c in checks],
                   "kind_free_text": "Coq 8.16.1 theories (coq/theories) proved with full .vo builds; guards regenerated from /repo by gen/; Go harnesses run the real code and the observations are judged inside Coq by vm_compute (model equality and specification oracle)"},
